@@ -317,7 +317,7 @@ def _run_sdeint(case, log, probes):
         budget = EVENTS0 + 8000 * steps + EVENTS_PER_NODE * 8192
         if front == "interval_cache0":
             budget += 50_000 * steps  # cache_size=0 recomputes the whole ancestor chain on every request (by design)
-        with seams.CallMonitor(budget) as mon:
+        with seams.CallMonitor(budget, 180.0 + 0.2 * steps) as mon:
             try:
                 with torch.no_grad():
                     kw = {}
@@ -325,7 +325,7 @@ def _run_sdeint(case, log, probes):
                         kw["options"] = dict(solver["options"])
                     ys = torchsde.sdeint(sde, y0, ts, bm=bmo, method=solver["method"], dt=dt, **kw)
             except SimBudgetExceeded as e:
-                raise Violation("budget", {"where": "sdeint", "msg": str(e)}, "sdeint")
+                raise Violation("stalled" if str(e).startswith("stalled") else "budget", {"where": "sdeint", "msg": str(e)}, "sdeint")
             except RecursionError as e:
                 raise Violation(f"exception:RecursionError@{bm._where(e)}", {"where": "sdeint"}, "sdeint")
             except Exception as e:  # noqa
